@@ -319,6 +319,14 @@ t("twin-flask-accept-subscript-default", "C18", MSA, 'handle_header(request.head
 b("get-prefixes-set-union-star", "C17", API, "            rv.update(\n                prefix_synonym\n                for record in self.records\n                for prefix_synonym in record.prefix_synonyms\n            )\n", "            rv |= set.union(*(set(r.prefix_synonyms) for r in self.records))\n", "")
 
 
+# ------------------------------------------------------------------------------------- def-use lints
+b("lint-generator-reused-in-loop", "C05 C09", API, "        rv: defaultdict[RecordKey, list[str]] = defaultdict(list)\n        for record in self.records:\n", "        rv: defaultdict[RecordKey, list[str]] = defaultdict(list)\n        ext_synonyms = (s for s in external.prefix_synonyms)\n        for record in self.records:\n            for s in ext_synonyms:\n                pass\n", "C05-X12 C09-X12")
+t("twin-lint-list-reused-in-loop", "C05 C09", API, "        rv: defaultdict[RecordKey, list[str]] = defaultdict(list)\n        for record in self.records:\n", "        rv: defaultdict[RecordKey, list[str]] = defaultdict(list)\n        ext_synonyms = [s for s in external.prefix_synonyms]\n        for record in self.records:\n            for s in ext_synonyms:\n                pass\n")
+b("lint-zip-consumed-twice", "C04", API, "        records = sorted(records, key=lambda r: r.prefix)\n", "        records = sorted(records, key=lambda r: r.prefix)\n        pairs = zip(records, records[1:])\n        n_pairs = sum(1 for _ in pairs)\n        n_again = sum(1 for _ in pairs)\n", "C04-X12")
+t("twin-lint-generator-once", "C04 C01", API, "        records = sorted(records, key=lambda r: r.prefix)\n", "        records = sorted(records, key=lambda r: r.prefix)\n        pairs = zip(records, records[1:])\n        n_pairs = sum(1 for _ in pairs)\n")
+b("lint-mutable-default", "C19", DISC, "def _get_uri_prefix_to_luids(\n    *,\n    converter: Converter | None = None,\n", "def _get_uri_prefix_to_luids(\n    *,\n    seen: dict = {},\n    converter: Converter | None = None,\n", "")
+
+
 def apply_unified_diff(files: dict, diff_text: str) -> dict | None:
     """Apply a unified diff (git format, paths a/src/curies/...) to an in-memory tree; None if it does not fit."""
     import re as _re
